@@ -66,6 +66,11 @@ func (c15) Plan(tier string, seed int64) []core.Scenario {
 			out = append(out, core.Sc("stalled").WithS("cause", cause).WithN("rep", rep))
 		}
 	}
+	// handlers that push reverse notifications (context-less proxy method) while their client goes away:
+	// they must be released, not held inside the library (shared with C16)
+	for i := 0; i < 3*ns; i++ {
+		out = append(out, core.Sc("revnotify").WithN("fk", i%3).WithN("handlers", 3+i%4))
+	}
 	for i := range out {
 		out[i].Seed = seed*67867967 + int64(i)
 		out[i] = out[i].WithN("noise", i%3)
@@ -206,6 +211,10 @@ func c15run(sc core.Scenario, r *core.R) {
 		c15Stalled(sc, r)
 		return
 	}
+	if sc.Kind == "revnotify" {
+		c16{}.notifyGone(sc, r)
+		return
+	}
 	cause, work := sc.Str("cause"), sc.Str("work")
 	react, flood := sc.I("react"), sc.I("flood") == 1
 	baseline := serverConnGoroutines()
@@ -283,7 +292,9 @@ func c15run(sc core.Scenario, r *core.R) {
 	if want("reverse") {
 		t := Tok("r")
 		cl.RevSvc.Hold(t + ".r0")
-		go cl.Rev(bg, t, 1, 4)
+		// the reverse call runs on the handler's context, or - retry-tagged - on a detached one: then only the
+		// library's own failure path can end it
+		go cl.Rev(bg, t, 1, []int{4, 8}[react%2])
 		toks = append(toks, t)
 	}
 	for _, t := range toks {
